@@ -85,4 +85,106 @@ theorem readPolyVec_write (c : FCodec F) (hc : c.Lawful) (fmt : Format) (ps : Li
   simp [readPolyVec, writePolyVec, List.append_assoc, readExact_append' 4 _ _ (be32_length _),
     ofBe32_be32 _ hn, readPolys_write c hc fmt ps h]
 
+/-! ### Consumption: a successful read uses exactly the expected number of bytes -/
+
+theorem readExact_ok {n : Nat} {bs a r : Bytes} (h : readExact n bs = .ok (a, r)) :
+    bs = a ++ r ∧ a.length = n := by
+  unfold readExact at h
+  split at h
+  · next hn =>
+    simp only [Except.ok.injEq, Prod.mk.injEq] at h
+    obtain ⟨rfl, rfl⟩ := h
+    exact ⟨(List.take_append_drop n bs).symm, by simp [List.length_take]; omega⟩
+  · simp at h
+
+theorem Codec.read_consumes (c : Codec P) (fmt : Format) {bs r : Bytes} {p : P}
+    (h : c.read fmt bs = .ok (p, r)) : bs.length = c.byteLen fmt + r.length := by
+  cases fmt <;> simp only [Codec.read] at h
+  · split at h
+    · simp at h
+    · next ch r' he =>
+      obtain ⟨rfl, hl⟩ := readExact_ok he
+      split at h <;> simp at h
+      obtain ⟨_, rfl⟩ := h
+      simp [Codec.byteLen, hl]
+  · split at h
+    · simp at h
+    · next ch r' he =>
+      obtain ⟨rfl, hl⟩ := readExact_ok he
+      split at h <;> simp at h
+      obtain ⟨_, rfl⟩ := h
+      simp [Codec.byteLen, hl]
+  · split at h
+    · simp at h
+    · next ch r' he =>
+      obtain ⟨rfl, hl⟩ := readExact_ok he
+      simp at h
+      obtain ⟨_, rfl⟩ := h
+      simp [Codec.byteLen, hl]
+
+theorem Codec.readMany_consumes (c : Codec P) (fmt : Format) : ∀ (n : Nat) {bs r : Bytes} {ps : List P},
+    c.readMany fmt n bs = .ok (ps, r) → bs.length = n * c.byteLen fmt + r.length ∧ ps.length = n
+  | 0, bs, r, ps, h => by
+    simp [Codec.readMany] at h
+    obtain ⟨rfl, rfl⟩ := h
+    simp
+  | n + 1, bs, r, ps, h => by
+    simp only [Codec.readMany] at h
+    split at h
+    · simp at h
+    · next p r1 h1 =>
+      split at h
+      · simp at h
+      · next ps' r2 h2 =>
+        simp at h
+        obtain ⟨rfl, rfl⟩ := h
+        have a := Codec.read_consumes c fmt h1
+        have ⟨b, hl⟩ := Codec.readMany_consumes c fmt n h2
+        refine ⟨?_, by simp [hl]⟩
+        rw [a, b, Nat.add_mul]; omega
+
+theorem readVK_consumes (c : Codec P) (v : UInt8) (fmt : Format) (sh : Shape) {bs r : Bytes} {vk : VK P}
+    (h : readVK c v fmt sh bs = .ok (vk, r)) :
+    bs.length = vkLen c fmt sh.nFixed sh.nPerm + r.length ∧
+      vk.fixed.length = sh.nFixed ∧ vk.perm.length = sh.nPerm := by
+  unfold readVK at h
+  split at h
+  · simp at h
+  · next v1 r1 h1 =>
+    split at h
+    · simp at h
+    · split at h
+      · simp at h
+      · next kb r2 h2 =>
+        simp only at h
+        split at h
+        · simp at h
+        · split at h
+          · simp at h
+          · split at h
+            · simp at h
+            · next nb r3 h3 =>
+              split at h
+              · simp at h
+              · next hcount =>
+                split at h
+                · simp at h
+                · next fixed r4 h4 =>
+                  split at h
+                  · simp at h
+                  · next perm r5 h5 =>
+                    simp at h
+                    obtain ⟨rfl, rfl⟩ := h
+                    obtain ⟨rfl, l1⟩ := readExact_ok h1
+                    obtain ⟨rfl, l2⟩ := readExact_ok h2
+                    obtain ⟨rfl, l3⟩ := readExact_ok h3
+                    have ⟨a4, f4⟩ := Codec.readMany_consumes c fmt _ h4
+                    have ⟨a5, f5⟩ := Codec.readMany_consumes c fmt _ h5
+                    have hc : ofLe32 nb = sh.nFixed := by simpa using hcount
+                    refine ⟨?_, by simp [f4, hc], by simp [f5]⟩
+                    simp only [List.length_append, l1, l2, l3, a4, a5, vkLen, hc, Nat.add_mul]
+                    omega
+
+/-! ### The transcript preimage determines the key -/
+
 end MidnightZK.C17
